@@ -84,7 +84,10 @@ pub fn generic_field_alphabet(params: ParamForm, include_cf3: bool) -> Vec<Field
             Field::new(Ty::Phantom(b(Ty::Param(1)))),
         ];
     }
-    let mut v: Vec<Field> = generic_type_alphabet(params, include_cf3).into_iter().map(Field::new).collect();
+    let mut v: Vec<Field> = generic_type_alphabet(params, include_cf3)
+        .into_iter()
+        .map(Field::new)
+        .collect();
     if !matches!(params, ParamForm::ConfigSkipped | ParamForm::ConfigKept) {
         // `#[codec(compact)] f: T` and an explicit `Compact<T>`, also nested
         v.push(Field::compact(Ty::Param(0)));
@@ -121,7 +124,11 @@ pub fn generic_type_alphabet(params: ParamForm, include_cf3: bool) -> Vec<Ty> {
     }
     if params == ParamForm::Two {
         let u = Ty::Param(1);
-        v.extend([u.clone(), Ty::Tuple(vec![t.clone(), u.clone()]), Ty::Vec(b(Ty::Named(G_H, vec![u.clone()])))]);
+        v.extend([
+            u.clone(),
+            Ty::Tuple(vec![t.clone(), u.clone()]),
+            Ty::Vec(b(Ty::Named(G_H, vec![u.clone()]))),
+        ]);
     }
     if config {
         v.extend([Ty::Assoc(0), Ty::Vec(b(Ty::Assoc(0)))]);
@@ -231,7 +238,10 @@ impl GenState {
                         if i % 2 == 0 {
                             variant(&format!("V{i}"), Fields::Unnamed(vec![t.clone()]))
                         } else {
-                            variant(&format!("V{i}"), Fields::Named(vec![(names[i].to_string(), t.clone())]))
+                            variant(
+                                &format!("V{i}"),
+                                Fields::Named(vec![(names[i].to_string(), t.clone())]),
+                            )
                         }
                     }))
                     .collect(),
@@ -377,7 +387,9 @@ pub fn coincidence(def: &Def, args: &[Ty], prog: &Program) -> Result<(), &'stati
             // unless its closed form equals an argument
             let closed = ident(&substitute(&s, args, prog));
             if arg_ids.contains(&closed) && !matches!(strip_box(&s), Ty::Param(_)) {
-                return Err("CF1: an argument equals a non-parameter component nested in the definition");
+                return Err(
+                    "CF1: an argument equals a non-parameter component nested in the definition",
+                );
             }
         }
         // a field whose whole type is T::Inner or a closed type equal to an argument is distinguished by its type name: fine
@@ -388,7 +400,10 @@ pub fn coincidence(def: &Def, args: &[Ty], prog: &Program) -> Result<(), &'stati
 impl Driver for DGeneric {
     type State = GenState;
     fn name(&self) -> String {
-        format!("D-generic(fields<={}, instantiations<={})", self.max_fields, self.max_insts)
+        format!(
+            "D-generic(fields<={}, instantiations<={})",
+            self.max_fields, self.max_insts
+        )
     }
     fn initial(&self) -> Vec<GenState> {
         let mut v = vec![];
@@ -526,11 +541,17 @@ impl<'a> Expect<'a> {
             Ty::Duration => "::core::time::Duration".into(),
             Ty::Compact(t) => format!(
                 "{}<{}>",
-                crate::settings::squash(self.settings.compact_path.as_deref().unwrap_or("?compact")),
+                crate::settings::squash(
+                    self.settings.compact_path.as_deref().unwrap_or("?compact")
+                ),
                 n(t)
             ),
             Ty::BitVec(store, msb) => {
-                let order_src = if *msb { "bitvec::order::Msb0" } else { "bitvec::order::Lsb0" };
+                let order_src = if *msb {
+                    "bitvec::order::Msb0"
+                } else {
+                    "bitvec::order::Lsb0"
+                };
                 let order = self
                     .settings
                     .substitutes
@@ -553,7 +574,11 @@ impl<'a> Expect<'a> {
                 n(o)
             ),
             Ty::Order(msb) => {
-                let order_src = if *msb { "bitvec::order::Msb0" } else { "bitvec::order::Lsb0" };
+                let order_src = if *msb {
+                    "bitvec::order::Msb0"
+                } else {
+                    "bitvec::order::Lsb0"
+                };
                 self.settings
                     .substitutes
                     .iter()
@@ -733,7 +758,12 @@ pub const ALL_PARAM_FORMS: [ParamForm; 6] = [
     ParamForm::TwoSecondSkipped,
     ParamForm::BitsSO,
 ];
-pub const ALL_MEMBER_FORMS: [MemberForm; 4] = [MemberForm::NamedStruct, MemberForm::TupleStruct, MemberForm::Enum, MemberForm::EnumIdx];
+pub const ALL_MEMBER_FORMS: [MemberForm; 4] = [
+    MemberForm::NamedStruct,
+    MemberForm::TupleStruct,
+    MemberForm::Enum,
+    MemberForm::EnumIdx,
+];
 
 impl FamState {
     pub fn program(&self) -> Program {
@@ -772,13 +802,19 @@ impl FamState {
                 }),
                 MemberForm::Enum => Body::Enum(vec![
                     variant("A", Fields::Unit),
-                    variant("B", Fields::Unnamed(tys.iter().cloned().map(Field::new).collect())),
+                    variant(
+                        "B",
+                        Fields::Unnamed(tys.iter().cloned().map(Field::new).collect()),
+                    ),
                 ]),
                 MemberForm::EnumIdx => Body::Enum(vec![
                     variant("A", Fields::Unit),
                     Variant {
                         index: Some(7),
-                        ..variant("B", Fields::Unnamed(tys.iter().cloned().map(Field::new).collect()))
+                        ..variant(
+                            "B",
+                            Fields::Unnamed(tys.iter().cloned().map(Field::new).collect()),
+                        )
                     },
                 ]),
             };
@@ -795,7 +831,12 @@ impl FamState {
             .members
             .iter()
             .enumerate()
-            .map(|(i, _)| (format!("m{i}"), Field::new(Ty::Named(F_FIRST_MEMBER + i, vec![]))))
+            .map(|(i, _)| {
+                (
+                    format!("m{i}"),
+                    Field::new(Ty::Named(F_FIRST_MEMBER + i, vec![])),
+                )
+            })
             .collect();
         for k in 0..self.neighbours {
             let idx = defs.len();
@@ -814,7 +855,12 @@ impl FamState {
             host_fields.push(("k1".into(), Field::new(Ty::BTreeMap(b(U8), b(U16)))));
         }
         let host = defs.len();
-        defs.push(Def::strukt(&["m", "h"], "Host", &[], Fields::Named(host_fields)));
+        defs.push(Def::strukt(
+            &["m", "h"],
+            "Host",
+            &[],
+            Fields::Named(host_fields),
+        ));
         let mut roots = vec![];
         match self.lead {
             1 => roots.push(Ty::Named(F_X2, vec![])),
@@ -844,9 +890,16 @@ impl Driver for DFamily {
         for form in self.forms.iter().copied() {
             for lead in self.leads.iter().copied() {
                 // digit-suffixed neighbours are combined with the plain lead order only
-                for neighbours in 0..(if self.with_neighbours && lead == 0 { 3u8 } else { 1 }) {
+                for neighbours in 0..(if self.with_neighbours && lead == 0 {
+                    3u8
+                } else {
+                    1
+                }) {
                     v.push(FamState {
-                        members: vec![Member { form, fields: vec![] }],
+                        members: vec![Member {
+                            form,
+                            fields: vec![],
+                        }],
                         neighbours,
                         lead,
                     });
@@ -874,7 +927,10 @@ impl Driver for DFamily {
                     continue;
                 }
                 let mut n = s.clone();
-                n.members.push(Member { form, fields: vec![] });
+                n.members.push(Member {
+                    form,
+                    fields: vec![],
+                });
                 out.push(n);
             }
         }
@@ -893,7 +949,12 @@ impl Driver for DFamily {
 
 /// Are two definitions the same definition up to twins (same path, same parameters, same body
 /// where referenced user definitions are again equivalent)? Coinductive.
-pub fn defs_equiv(prog: &Program, a: usize, b_: usize, assumed: &mut HashSet<(usize, usize)>) -> bool {
+pub fn defs_equiv(
+    prog: &Program,
+    a: usize,
+    b_: usize,
+    assumed: &mut HashSet<(usize, usize)>,
+) -> bool {
     if a == b_ {
         return true;
     }
@@ -901,7 +962,8 @@ pub fn defs_equiv(prog: &Program, a: usize, b_: usize, assumed: &mut HashSet<(us
         return true;
     }
     let (da, db) = (&prog.defs[a], &prog.defs[b_]);
-    if da.path() != db.path() || da.params != db.params || da.assoc.is_some() != db.assoc.is_some() {
+    if da.path() != db.path() || da.params != db.params || da.assoc.is_some() != db.assoc.is_some()
+    {
         return false;
     }
     let feq = |x: &Fields, y: &Fields, assumed: &mut HashSet<(usize, usize)>| -> bool {
@@ -909,15 +971,17 @@ pub fn defs_equiv(prog: &Program, a: usize, b_: usize, assumed: &mut HashSet<(us
             (Fields::Unit, Fields::Unit) => true,
             (Fields::Named(p), Fields::Named(q)) => {
                 p.len() == q.len()
-                    && p.iter()
-                        .zip(q)
-                        .all(|((n1, f1), (n2, f2))| n1 == n2 && f1.compact == f2.compact && tys_equiv(prog, &f1.ty, &f2.ty, assumed))
+                    && p.iter().zip(q).all(|((n1, f1), (n2, f2))| {
+                        n1 == n2
+                            && f1.compact == f2.compact
+                            && tys_equiv(prog, &f1.ty, &f2.ty, assumed)
+                    })
             }
             (Fields::Unnamed(p), Fields::Unnamed(q)) => {
                 p.len() == q.len()
-                    && p.iter()
-                        .zip(q)
-                        .all(|(f1, f2)| f1.compact == f2.compact && tys_equiv(prog, &f1.ty, &f2.ty, assumed))
+                    && p.iter().zip(q).all(|(f1, f2)| {
+                        f1.compact == f2.compact && tys_equiv(prog, &f1.ty, &f2.ty, assumed)
+                    })
             }
             _ => false,
         }
@@ -928,7 +992,9 @@ pub fn defs_equiv(prog: &Program, a: usize, b_: usize, assumed: &mut HashSet<(us
             // the effective index: explicit, else the position
             x.len() == y.len()
                 && x.iter().zip(y).enumerate().all(|(i, (v1, v2))| {
-                    v1.name == v2.name && v1.index.unwrap_or(i as u8) == v2.index.unwrap_or(i as u8) && feq(&v1.fields, &v2.fields, assumed)
+                    v1.name == v2.name
+                        && v1.index.unwrap_or(i as u8) == v2.index.unwrap_or(i as u8)
+                        && feq(&v1.fields, &v2.fields, assumed)
                 })
         }
         _ => false,
@@ -941,11 +1007,16 @@ pub fn tys_equiv(prog: &Program, a: &Ty, b_: &Ty, assumed: &mut HashSet<(usize, 
         (Named(d1, a1), Named(d2, a2)) => {
             defs_equiv(prog, *d1, *d2, assumed)
                 && a1.len() == a2.len()
-                && a1.iter().zip(a2).all(|(x, y)| tys_equiv(prog, x, y, assumed))
+                && a1
+                    .iter()
+                    .zip(a2)
+                    .all(|(x, y)| tys_equiv(prog, x, y, assumed))
         }
         (Vec(x) | VecDeque(x), Vec(y) | VecDeque(y)) => tys_equiv(prog, x, y, assumed),
         (Array(x, n), Array(y, m)) => n == m && tys_equiv(prog, x, y, assumed),
-        (Tuple(x), Tuple(y)) => x.len() == y.len() && x.iter().zip(y).all(|(p, q)| tys_equiv(prog, p, q, assumed)),
+        (Tuple(x), Tuple(y)) => {
+            x.len() == y.len() && x.iter().zip(y).all(|(p, q)| tys_equiv(prog, p, q, assumed))
+        }
         (Option(x), Option(y))
         | (BTreeSet(x), BTreeSet(y))
         | (BinaryHeap(x), BinaryHeap(y))
@@ -953,7 +1024,9 @@ pub fn tys_equiv(prog: &Program, a: &Ty, b_: &Ty, assumed: &mut HashSet<(usize, 
         | (RangeInclusive(x), RangeInclusive(y))
         | (Cow(x), Cow(y))
         | (Compact(x), Compact(y)) => tys_equiv(prog, x, y, assumed),
-        (Result(x1, x2), Result(y1, y2)) | (BTreeMap(x1, x2), BTreeMap(y1, y2)) | (BitVecG(x1, x2), BitVecG(y1, y2)) => {
+        (Result(x1, x2), Result(y1, y2))
+        | (BTreeMap(x1, x2), BTreeMap(y1, y2))
+        | (BitVecG(x1, x2), BitVecG(y1, y2)) => {
             tys_equiv(prog, x1, y1, assumed) && tys_equiv(prog, x2, y2, assumed)
         }
         (Phantom(_), Phantom(_)) => true,
@@ -967,5 +1040,8 @@ pub fn settings_small() -> Vec<(String, SettingsSpec)> {
     let mut r = base.clone();
     r.root = "r".into();
     r.alloc = Some("::alloc".into());
-    vec![("faithful".into(), base), ("root=r,alloc=::alloc".into(), r)]
+    vec![
+        ("faithful".into(), base),
+        ("root=r,alloc=::alloc".into(), r),
+    ]
 }
